@@ -316,8 +316,10 @@ def strSort (l : List String) : List String := l.mergeSort fun a b => !(decide (
 
 def tagMapStr (m : List (Nat × List Nat)) : String :=
   if m.isEmpty then "{}" else
-  let rows := m.map fun e => keyStr e.1 ++ "=" ++ "|".intercalate (e.2.map valStr)
-  "{" ++ "&".intercalate (strSort rows) ++ "}"
+  -- the harness (tagMapTok) sorts the KEYS ("k1" < "k12"), not the rendered rows ("k12=…" < "k1=…")
+  let ms := m.mergeSort fun a b => !(decide (keyStr b.1 < keyStr a.1))
+  let rows := ms.map fun e => keyStr e.1 ++ "=" ++ "|".intercalate (e.2.map valStr)
+  "{" ++ "&".intercalate rows ++ "}"
 
 def ptsStr (ps : List (Int × Int)) : String := ";".intercalate (ps.map fun p => s!"{p.1}_{p.2}")
 
